@@ -804,16 +804,16 @@ EvalCall(e, st) ==
       [] e.f \in {"strfmt", "printf"} ->
            (LET first == IF e.f = "strfmt" THEN 3 ELSE 2
                 RECURSIVE Args(_, _, _)
-                \* strfmt ignores argument errors (the value reads as nil); printf propagates them
+                \* a failing operand is the call's failure, for strfmt as for printf (D29: strfmt used to format it as nil and go on)
                 Args(i, s0, acc) == IF i > Len(e.as) THEN [st |-> s0, ok |-> TRUE, vs |-> acc, cls |-> ""]
                                     ELSE LET r == Eval(e.as[i], s0) IN
-                                         IF ~r.ok THEN (IF e.f = "printf" THEN [st |-> r.st, ok |-> FALSE, vs |-> acc, cls |-> r.cls]
-                                                        ELSE Args(i + 1, r.st, Append(acc, VNil)))
+                                         IF ~r.ok THEN [st |-> r.st, ok |-> FALSE, vs |-> acc, cls |-> r.cls]
                                          ELSE Args(i + 1, r.st, Append(acc, r.v))
             IN IF e.f = "strfmt"
                  THEN (LET a == Args(first, st, <<>>)
                            f == Sprintf(e.as[2].s, 1, a.vs, 1, <<>>) IN
-                       IF ~f.ok \/ \E j \in 1..Len(a.vs) : a.vs[j].t = "ref" THEN E(a.st, "unspec-format")
+                       IF ~a.ok THEN E(a.st, a.cls)
+                       ELSE IF ~f.ok \/ \E j \in 1..Len(a.vs) : a.vs[j].t = "ref" THEN E(a.st, "unspec-format")
                        ELSE R([a.st EXCEPT !.pt = PtSetField(@, Alias(KeyNameOf(e.as[1]).n), VStr(f.s)),
                                            !.log = Append(@, [ev |-> "call", k |-> "strfmt"])], VVoid))
                  ELSE (LET fr == Eval(e.as[1], st) IN          \* the format is evaluated as an expression; a non-string prints nothing
